@@ -2,6 +2,7 @@ package props
 
 import (
 	"crypto/x509"
+	"errors"
 	"fmt"
 	"strings"
 	"testing"
@@ -181,6 +182,110 @@ func TestC12(t *testing.T) {
 			gen.NonTrivial(w.Raw, vec, f.Name)
 		}
 		gen.Sample("gating", map[string]any{"fault": f.Name, "verdicts": vec, "requests_collateral": len(logs[1]), "requests_crl": len(logs[2])})
+	})
+
+	// (2b) time-shift twins: ONE plan, expressed relative to the pinned verification time T (validity windows, issue and
+	// next-update dates, which root distribution point serves which list), built at several T: decades in the past, a day
+	// before and after the wall clock, decades in the future. With Options.Now pinned the verifier has no other time
+	// reference, so the verdicts at every level are the same for every T: shifting all the data and the pinned time by
+	// D is shifting the wall clock by -D.
+	gen.Prop(t, "time-shift-twins", gen.N(250, 12000), func(t *rapid.T) {
+		content := rapid.Uint64().Draw(t, "content")
+		day := 24 * time.Hour
+		offs := []time.Duration{time.Hour, 30 * day, 400 * day, 20 * 365 * day}
+		off := func(label string) time.Duration { return rapid.SampledFrom(offs).Draw(t, label) }
+		dps := []string{gen.RootCrlURL, "https://crl.example.test/second.der", "https://crl.example.test/third.der"}[:rapid.IntRange(1, 3).Draw(t, "rootDistributionPoints")]
+		dpKind := make([]string, len(dps))
+		dpNext := make([]time.Duration, len(dps))
+		for i := range dps {
+			dpKind[i] = rapid.SampledFrom([]string{"good", "good", "revokes-intermediate", "unreachable", "not-a-list", "due-before-T"}).Draw(t, fmt.Sprintf("dp%d", i))
+			dpNext[i] = off(fmt.Sprintf("dp%dNext", i))
+		}
+		pckNext, tcbNext, qeNext, certAfter := off("pckCrlNext"), off("tcbInfoNext"), off("qeIdentityNext"), off("certificatesValidFor")
+		pckRevokesLeaf := rapid.IntRange(0, 5).Draw(t, "pckCrlRevokesLeaf") == 0
+		wall := time.Now().UTC().Truncate(day)
+		allBases := []time.Time{time.Date(2001, 6, 1, 12, 0, 0, 0, time.UTC), time.Date(2015, 2, 3, 4, 5, 6, 0, time.UTC), wall.Add(-36 * time.Hour), wall.Add(36 * time.Hour), wall.Add(-45 * day), time.Date(2060, 1, 2, 3, 4, 5, 0, time.UTC), time.Date(2090, 7, 8, 9, 10, 11, 0, time.UTC)}
+		bases := []time.Time{allBases[rapid.IntRange(0, 1).Draw(t, "past")], allBases[rapid.IntRange(2, 4).Draw(t, "nearNow")], allBases[rapid.IntRange(5, 6).Draw(t, "future")]}
+		build := func(T time.Time) *gen.World {
+			cw := gen.Window{NotBefore: T.AddDate(-9, 0, 0), NotAfter: T.Add(certAfter)}
+			w := gen.NewWorld(gen.NewPKI(gen.PKISpec{Seed: "c12shift", RootCRLDP: dps, RootW: cw, IntW: cw, TcbW: cw, QeW: cw}), gen.NewStream(content, "c12shift"))
+			w.LeafSpec.W = cw
+			w.Times = verify.TimeSet{PckCertChain: T, TcbInfo: T.Add(time.Minute), QeIdentity: T.Add(2 * time.Minute), PckCrl: T.Add(3 * time.Minute), RootCaCrl: T.Add(4 * time.Minute)}
+			w.HonestCollateral()
+			w.TcbInfo.IssueDate, w.TcbInfo.NextUpdate = T.Add(-day), T.Add(tcbNext)
+			w.QeID.IssueDate, w.QeID.NextUpdate = T.Add(-2*day), T.Add(qeNext)
+			w.SignQuote() // issues the leaf
+			w.PckCrl = gen.CRLSpec{ThisUpdate: T.Add(-day), NextUpdate: T.Add(pckNext), Number: 5}
+			if pckRevokesLeaf {
+				w.PckCrl.Revoked = [][]byte{w.Leaf.X.SerialNumber.Bytes()}
+			}
+			w.RootCrl = gen.CRLSpec{ThisUpdate: T.Add(-day), NextUpdate: T.Add(dpNext[0]), Number: 7}
+			w.RootDPSpec, w.RootDPResp = map[int]*gen.CRLSpec{}, map[int]gen.Response{}
+			for i, k := range dpKind {
+				spec := &gen.CRLSpec{ThisUpdate: T.Add(-day), NextUpdate: T.Add(dpNext[i]), Number: int64(7 + i)}
+				switch k {
+				case "good":
+					w.RootDPSpec[i] = spec
+				case "revokes-intermediate":
+					spec.Revoked = [][]byte{w.PKI.Int.X.SerialNumber.Bytes()}
+					w.RootDPSpec[i] = spec
+				case "due-before-T":
+					spec.ThisUpdate, spec.NextUpdate = T.Add(-40*day), T.Add(-time.Hour)
+					w.RootDPSpec[i] = spec
+				case "unreachable":
+					w.RootDPResp[i] = gen.Response{Err: errors.New("scripted: distribution point unreachable")}
+				default:
+					w.RootDPResp[i] = gen.Response{Body: []byte("<html><body>503 Service Unavailable</body></html>")}
+				}
+			}
+			w.BuildCollateral()
+			return w
+		}
+		levels := []gen.Level{gen.LvlBase, gen.LvlColl, gen.LvlCRL}
+		var worlds []*gen.World
+		var vecs []string
+		for _, T := range bases {
+			w := build(T)
+			worlds = append(worlds, w)
+			vec := ""
+			for _, l := range levels {
+				o := w.Options(l, w.NewGetter(), nil)
+				gen.Eval()
+				v := gen.Call(func() error { return verify.RawTdxQuote(w.Raw, o) })
+				if v.Panicked() {
+					gen.Fail(t, gen.Violation{Key: "panic@" + gen.PanicSite(v.Stack), Oracle: "verification returns a verdict", Detail: v.Panic, Replay: w.CaseFile(l, nil, nil, nil, "nopanic")})
+					return
+				}
+				vec += map[bool]string{true: "A", false: "R"}[v.Accepted()]
+			}
+			vecs = append(vecs, vec)
+		}
+		plan := fmt.Sprintf("root DPs %v next %v, pck next %v (revokes leaf %v), tcb next %v, qe next %v, certificates valid for %v", dpKind, dpNext, pckNext, pckRevokesLeaf, tcbNext, qeNext, certAfter)
+		for i := 1; i < len(vecs); i++ {
+			if vecs[i] != vecs[0] {
+				li := 0
+				for li < 2 && vecs[i][li] == vecs[0][li] {
+					li++
+				}
+				expect := map[byte]string{'A': "accept", 'R': "reject"}[vecs[0][li]]
+				gen.Fail(t, gen.Violation{Key: "verdict-depends-on-the-wall-clock:" + levels[li].String(), Oracle: "with the verification times pinned in the options, the verdict depends only on the quote, the options and the fetched data: the same plan built around another pinned time gives the same verdicts",
+					Detail: fmt.Sprintf("plan [%s]: pinned at %s verdicts (base,collateral,revocation) = %s, pinned at %s = %s (wall clock %s)", plan, bases[0].Format(time.RFC3339), vecs[0], bases[i].Format(time.RFC3339), vecs[i], wall.Format("2006-01-02")),
+					Replay: worlds[i].CaseFile(levels[li], nil, nil, nil, expect)})
+				return
+			}
+		}
+		straddles := false
+		for _, d := range append(append([]time.Duration{}, dpNext...), pckNext, tcbNext, qeNext, certAfter) {
+			if bases[0].Add(d).Before(wall) || bases[1].Add(d).Before(wall) != bases[2].Add(d).Before(wall) {
+				straddles = true
+			}
+		}
+		if straddles {
+			gen.NonTrivial("shift", plan, vecs[0])
+		}
+		gen.Class("time-shift:verdicts=" + vecs[0])
+		gen.Class(fmt.Sprintf("time-shift:root-distribution-points=%d", len(dps)))
+		gen.Sample("time-shift", map[string]any{"plan": plan, "verdicts": vecs[0], "pinned": []string{bases[0].Format("2006-01-02"), bases[1].Format("2006-01-02"), bases[2].Format("2006-01-02")}})
 	})
 
 	// (3) histories through one shared options value.
